@@ -661,8 +661,26 @@ func (f *filterRule) decide(op token.Token, lt, rt *Term) AV {
 		return name
 	}
 	isEmpty := func(t *Term) bool { return t.Op == "const" && t.Name == `""` }
+	// every alternative of t is the request field F itself or a value computed from F alone (its canonical rendering):
+	// empty exactly when F is
+	onlyFrom := func(t *Term) string {
+		name := ""
+		for _, a := range t.Alts() {
+			a = uncell(a)
+			n := reqIn(a)
+			if n == "" || n == "*" || (name != "" && n != name) {
+				return ""
+			}
+			name = n
+		}
+		return name
+	}
 	res := Unknown
 	switch {
+	case !isReq(lt) && onlyFrom(lt) != "" && isEmpty(rt):
+		res = Bool(!f.set[onlyFrom(lt)])
+	case !isReq(rt) && onlyFrom(rt) != "" && isEmpty(lt):
+		res = Bool(!f.set[onlyFrom(rt)])
 	case isReq(lt) && isEmpty(rt):
 		res = Bool(!f.set[lt.Name]) // a set filter is not empty; all others are empty
 	case isReq(rt) && isEmpty(lt):
